@@ -151,6 +151,8 @@ def run_property(prop, tier, seed, prop_file, corr_mod, check_fn, profiles, n_qu
                 pl.update({"scenario": scenarios[i], "rejected_at": results[i][1], "trace_context": context(outs[i], results[i][1])})
             if not harness_ok:
                 pl["harness_output"] = gout[-3000:]
+                if m5.last_hang:
+                    pl["scenario_that_did_not_end"] = m5.last_hang
             if not proofs_ok:
                 pl["coq_output"] = (blog + pa)[-3000:]
             res.violation("broken", pl, no_input=True)
